@@ -7,6 +7,28 @@
      T  id v stream sizes         -> id  <n>:<Cdec|Dhex,...>|<EOF|OTHER>     (tr_stream v (cut sizes stream))
    v = A | I.  sizes = comma separated chunk lengths, "KxN" = N chunks of K bytes, "-" = none
    (what is left of the stream after the listed chunks is one last chunk). *)
+(* faster hex glue than the shared one (1 MB messages): one shared N value per byte value *)
+let byte_tab : n array = Array.init 256 n_of_int
+let bytes_of_hex (s : string) : n list =
+  if s = "-" || s = "" then []
+  else begin
+    let l = String.length s / 2 in
+    let rec go i acc =
+      if i < 0 then acc
+      else go (i - 1) (byte_tab.(hexval s.[2 * i] * 16 + hexval s.[2 * i + 1]) :: acc)
+    in
+    go (l - 1) []
+  end
+let hexdigits = "0123456789abcdef"
+let hex_of_bytes (l : n list) : string =
+  match l with
+  | [] -> "-"
+  | _ ->
+    let b = Buffer.create 4096 in
+    List.iter (fun x -> let v = int_of_n x in
+                Buffer.add_char b hexdigits.[(v lsr 4) land 15]; Buffer.add_char b hexdigits.[v land 15]) l;
+    Buffer.contents b
+
 let variant_of s = match s with "A" -> Abridged | "I" -> Intermediate | _ -> failwith ("bad variant " ^ s)
 let show_variant v = match v with Abridged -> "A" | Intermediate -> "I"
 
